@@ -41,7 +41,7 @@ type histEvent struct {
 type histResult struct {
 	ID         string      `json:"id"`
 	Events     []histEvent `json:"events"`
-	Problems   []string    `json:"problems"` // re-hash mismatches, aliasing, input modification, hook invariant
+	Problems   []string    `json:"problems"`  // re-hash mismatches, aliasing, input modification, hook invariant
 	CacheObs   []string    `json:"cache_obs"` // "enc:lenBefore->degree"
 	Leaked     int         `json:"leaked"`
 	LeakSample string      `json:"leak_sample,omitempty"`
